@@ -464,7 +464,11 @@ func (r *Resolver) AutoTA() {
 	// keys or to adjacent state changes.
 	if !revocationOnly {
 		for tag, ta := range kskCurrent {
-			if kskFetched[tag] == nil {
+			// Presence is a statement about this key, not about its
+			// 16-bit tag: a different key that happens to share the tag
+			// must not keep a withdrawn key "in the zone" (and let it
+			// finish an add hold-down it no longer qualifies for).
+			if !fetchedHasKey(resp.Answer, ta.DNSKey) {
 				// RFC 5011 §4 state table: the KeyRem event's effect
 				// depends on the prior state.
 				switch ta.State {
@@ -622,6 +626,25 @@ func autoTARefreshFailureCounter(err error, fallback *metric.Counter) *metric.Co
 // of the real trust anchor. Comparing the actual key material
 // (algorithm, protocol, public key, and flags modulo REVOKE) closes
 // that gap.
+// fetchedHasKey reports whether rrs carries exactly this DNSKEY: same flags,
+// protocol, algorithm and key material. Key tags are 16-bit checksums and are
+// not an identity.
+func fetchedHasKey(rrs []dns.RR, key *dns.DNSKEY) bool {
+	if key == nil {
+		return false
+	}
+	for _, rr := range rrs {
+		if k, ok := rr.(*dns.DNSKEY); ok &&
+			k.Flags == key.Flags &&
+			k.Protocol == key.Protocol &&
+			k.Algorithm == key.Algorithm &&
+			k.PublicKey == key.PublicKey {
+			return true
+		}
+	}
+	return false
+}
+
 func sameKeyExceptRevoke(currentKey, revokedKey *dns.DNSKEY) bool {
 	if currentKey == nil || revokedKey == nil {
 		return false
